@@ -106,6 +106,58 @@ def gen_threshold(rng, cms):
     return F(rng.randint(-8, 24), 8)
 
 
+# ---- the threshold as the code compares it ---------------------------------------
+NP_DTYPE = {"float32": "float32", "float16": "float16", "float64": "float64"}
+EDGE_THRESHOLDS = [F(1, 10), F(1, 5), F(3, 10), F(7, 10)]      # not representable in any binary float format
+
+
+def thr_in_dtype(thr, dtype="float32"):
+    """`cms > threshold` / `max_values < threshold` with a Python float against a float32 / float16 / float64
+    tensor is evaluated IN THE TENSOR'S DTYPE: the Python float float(thr) is first rounded to that dtype
+    (float32(0.2) = 0.2000000030 > 0.2, float16(0.2) = 0.19995 < 0.2).  The Coq models, their theorems and
+    the oracles read "the threshold" as this rounded number (an exact rational); for thresholds that are
+    representable in the dtype (all dyadic k/8 ones) it is the number the caller wrote."""
+    import numpy as np
+    return F(float(getattr(np, NP_DTYPE[dtype])(float(thr))))
+
+
+def dtype_neighbours(q, dtype):
+    """(previous, next) representable numbers of the dtype around the representable q."""
+    import numpy as np
+    t = getattr(np, NP_DTYPE[dtype])
+    v = t(float(q))
+    assert F(float(v)) == q, (q, dtype)
+    return F(float(np.nextafter(v, t(-4)))), F(float(np.nextafter(v, t(4))))
+
+
+def gen_thr_edge(rng, dtype=None, big=6):
+    """A batch for a NON-DYADIC threshold (0.1, 0.2, 0.3, 0.7): isolated spikes (stride-2 positions, so each is a
+    strict local maximum) whose values are exactly dtype(thr), its predecessor or its successor in the map's
+    dtype, on a background of 0 and 1/16.  Returns (cms, thr, dtype); thr is the exact fraction whose float()
+    the caller passes."""
+    dtype = dtype or rng.choice(["float32", "float32", "float16", "float64"])
+    thr = rng.choice(EDGE_THRESHOLDS)
+    t = thr_in_dtype(thr, dtype)
+    dn, up = dtype_neighbours(t, dtype)
+    H, W = rng.randint(2, big), rng.randint(2, big)
+    B, C = rng.randint(1, 2), rng.randint(1, 3)
+    cms = []
+    for _ in range(B):
+        smp = []
+        for _ in range(C):
+            m = [[F(rng.choice([0, 0, 0, 1]), 16) for _ in range(W)] for _ in range(H)]
+            spots = [(i, j) for i in range(0, H, 2) for j in range(0, W, 2)]
+            for (i, j) in rng.sample(spots, rng.randint(1, min(3, len(spots)))):
+                m[i][j] = rng.choice([t, t, dn, up])
+            if rng.random() < 0.4:           # the channel maximum is exactly dtype(thr)
+                m = [[min(v, t) for v in row] for row in m]
+                i, j = rng.choice(spots)
+                m[i][j] = t
+            smp.append(m)
+        cms.append(smp)
+    return cms, thr, dtype
+
+
 # ---- Coq literals -----------------------------------------------------------
 def cmap_lit(m):
     return core.clist(m, lambda row: core.clist(row, core.cq))
@@ -156,6 +208,39 @@ def selector_F9(m, x, y, r):
     """Finding F9: the refinement window holds a negative value or the peak value is <= 0."""
     P = patch_values(m, x, y, r)
     return any(v < 0 for row in P for v in row) or not m[y][x] > 0
+
+
+def patch_sticks_out(m, x, y, p):
+    """Finding F25 (C07): the p x p refinement patch around cell (x, y) reads a cell that does not exist
+    (some cell within radius p // 2 lies outside the map; crop_bboxes pads it with 0)."""
+    r = p // 2
+    return x < r or y < r or x + r >= len(m[0]) or y + r >= len(m)
+
+
+def in_map_symmetric(m, x, y, r):
+    """The map is point-symmetric about cell (x, y) as far as the map goes: two cells OF THE MAP within radius r
+    that are mirror images about (x, y) hold the same value (Border.in_map_symmetric)."""
+    H, W = len(m), len(m[0])
+    for dy in range(-r, r + 1):
+        for dx in range(-r, r + 1):
+            if 0 <= y + dy < H and 0 <= x + dx < W and 0 <= y - dy < H and 0 <= x - dx < W \
+                    and m[y + dy][x + dx] != m[y - dy][x - dx]:
+                return False
+    return True
+
+
+def radially_symmetric(m, x, y, r):
+    """A genuine symmetric bump about cell (x, y), as far as the map goes: cells OF THE MAP within radius r at the
+    same Euclidean distance from (x, y) hold the same value (implies in_map_symmetric; not trivially true at a
+    corner: (x+1, y) and (x, y+1) must agree)."""
+    H, W = len(m), len(m[0])
+    seen = {}
+    for dy in range(-r, r + 1):
+        for dx in range(-r, r + 1):
+            if 0 <= y + dy < H and 0 <= x + dx < W:
+                if seen.setdefault(dy * dy + dx * dx, m[y + dy][x + dx]) != m[y + dy][x + dx]:
+                    return False
+    return True
 
 
 def patch_condition(m, x, y, r):
